@@ -40,6 +40,11 @@ class NullCtx:
     """context used by the concrete interpretation / conformance: raises become Python exceptions"""
     safety = False
 
+    def __init__(self):
+        self.notes = []
+        self.trusted = set()
+        self.ghost = {}
+
     def may_raise(self, cond, kind, site=None):
         if O.simp(cond) is True or (not O.is_sym(cond) and cond):
             raise SymRaise(kind, site)
@@ -460,6 +465,10 @@ def advanced_get(fr, base, key, site=None):
     dims_of_adv = [v.shape[q] for q in advpos]
     # index range: out of range raises IndexError; negative wraps
     for q, s_, L in zip(advpos, idx_snaps, dims_of_adv):
+        if isinstance(ctx, NullCtx):
+            for r in range(int(ashape)):
+                ctx.may_raise(Or(s_(r) < -L, s_(r) >= L), 'IndexError', site)
+            continue
         r = O.fresh_int('r')
         bad = And(in_range_(r, ashape), Or(s_(r) < -L, s_(r) >= L))
         if not isinstance(ctx, NullCtx):
@@ -584,8 +593,12 @@ def advanced_set(fr, base, key, v, site=None):
         raise Unsupported("advanced store through a view")
     snaps = {j: ks[j].snapshot() for j in adv}
     for j in adv:
-        r = O.fresh_int('r')
         L = base.shape[j]
+        if isinstance(ctx, NullCtx):
+            for r in range(int(n)):
+                ctx.may_raise(Or(snaps[j](r) < -L, snaps[j](r) >= L), 'IndexError', site)
+            continue
+        r = O.fresh_int('r')
         bad = And(in_range_(r, n), Or(snaps[j](r) < -L, snaps[j](r) >= L))
         if ctx.feasible(bad):
             ctx.may_raise(bad, 'IndexError', site)
